@@ -618,6 +618,16 @@ func (e *env) runPipeX(enc string, in []byte, mode string, consumer int, toModel
 	if len(in) >= 4096 {
 		e.sum.Hist("pipe:long-input(>=4096)")
 	}
+	// the bufio fill model: for the identity decoder the pieces bufio.Reader gets are exactly the
+	// source's reads
+	if pieces := knownPieces(mode, in); (enc == "" || enc == "utf-8") && toModel && mode != "whole" && pieces != nil && len(in) <= 64 {
+		var ps []string
+		for _, p := range pieces {
+			ps = append(ps, vh.CoqHex(p))
+		}
+		e.sum.Hist("pipe:split-case(bufio fill model)")
+		e.cw.Add(fmt.Sprintf("SplitCase %s %s", vh.CoqList(ps), vh.CoqHex(got)), d)
+	}
 	k := enc + "|" + vh.KeyOf(in)
 	if toModel && !e.seenPipe[k] {
 		e.seenPipe[k] = true
@@ -628,6 +638,45 @@ func (e *env) runPipeX(enc string, in []byte, mode string, consumer int, toModel
 			e.cw.Add(fmt.Sprintf("PipeCase %s %s %s", coqEnc(enc), vh.CoqHex(in), vh.CoqHex(got)), d)
 		}
 	}
+}
+
+// knownPieces: the reads the source delivers, where the reader mode fixes them.
+func knownPieces(mode string, in []byte) [][]byte {
+	var out [][]byte
+	switch {
+	case mode == "onebyte":
+		for i := range in {
+			out = append(out, in[i:i+1])
+		}
+	case mode == "whole" || mode == "dataerr":
+		out = [][]byte{in}
+	case strings.HasPrefix(mode, "chunks:"):
+		var sizes []int
+		for _, f := range strings.Split(mode[7:], ",") {
+			var n int
+			fmt.Sscan(f, &n)
+			if n > 0 {
+				sizes = append(sizes, n)
+			}
+		}
+		for i, k := 0, 0; i < len(in); k++ {
+			n := 1
+			if len(sizes) > 0 {
+				n = sizes[k%len(sizes)]
+			}
+			if i+n > len(in) {
+				n = len(in) - i
+			}
+			out = append(out, in[i:i+n])
+			i += n
+		}
+	default:
+		return nil
+	}
+	if out == nil {
+		out = [][]byte{}
+	}
+	return out
 }
 
 // fillerByte is byte i of the filler pattern (Model/Encoding.v: fill).
@@ -744,7 +793,7 @@ func (e *env) runTranscript(fi int, enc string, in []byte, mode string) {
 		e.sum.Sample(map[string]interface{}{"case": d, "transcript": a})
 	}
 	e.trN++
-	e.runPipeX(enc, in, mode, 0, e.trN%3 == 0)
+	e.runPipeX(enc, in, mode, 0, e.trN%6 == 0)
 }
 
 // longRows builds an all-ASCII input of at least minLen bytes for the format of fixture fi:
